@@ -198,10 +198,15 @@ func c06Walk(c *vh.Ctx, spec *core.Spec, cs walkCase) {
 func C06(c *vh.Ctx) {
 	if c.Replay != "" {
 		var probe struct {
-			Msgs  []interface{} `json:"msgs"`
-			Limit *int          `json:"limit"`
+			Msgs   []interface{} `json:"msgs"`
+			Limit  *int          `json:"limit"`
+			Script string        `json:"script"`
 		}
 		c.LoadReplay(&probe)
+		if probe.Script != "" {
+			c06Retry(c) // the whole (small) retry family
+			return
+		}
 		if probe.Limit != nil {
 			var cs walkCase
 			c.LoadReplay(&cs)
@@ -217,7 +222,7 @@ func C06(c *vh.Ctx) {
 		}
 		return
 	}
-	c.Rule("the C04 step space (quick vocabulary; in the quick tier every twenty-ninth two-branch list) and the C05 walk space (quick templates; in the quick tier every fourth spec, sequences up to the bound, limits {0,2,100}, breakpoints) re-executed with deep snapshots (reflect, incl. unexported fields) of state, messages, spec, control and props before/after each call, map-identity checks on every returned state, and two identical calls compared; non-trivial = the step/walk did something other than stay / finish normally.")
+	c.Rule("the C04 step space (quick vocabulary; in the quick tier every twenty-ninth two-branch list) and the C05 walk space (quick templates; in the quick tier every sixth spec, sequences up to the bound, limits {0,2,100}, breakpoints) re-executed with deep snapshots (reflect, incl. unexported fields) of state, messages, spec, control and props before/after each call, map-identity checks on every returned state, and two identical calls compared; plus a retry family: ECMAScript actions and guards that try to remember something outside their result (globals, built-in prototypes, members of the built-in objects, the properties object, also before failing) are walked several times with equal inputs, for one machine and for many machines in turn, with nil / empty / populated step properties - every attempt must give the result of the first; non-trivial = the step/walk did something other than stay / finish normally.")
 	forEachStepCase(c, false, func(spec *core.Spec, cs stepCase, li int) {
 		if c.Quick() && len(cs.Spec.Nodes["n0"].Branches) == 2 && li%29 != 0 {
 			return // quick: no / single-branch lists in full, every twenty-ninth two-branch list
@@ -227,14 +232,20 @@ func C06(c *vh.Ctx) {
 			c.Sample(cs)
 		}
 	})
+	if c.Shard == 0 {
+		c06Retry(c)
+	}
 	maxLen := c.Pick(2, 3)
 	all := seqs(maxLen)
 	c.Bound("walk_message_sequence_max", maxLen)
 	var wi int
 	forEachWalkSpec(c, false, func(as *rstep.ASpec, spec *core.Spec) {
+		if editsInPlace(as) {
+			return // an action that edits its input edits the caller's state: action behaviour, not the engine's
+		}
 		wi++
-		if c.Quick() && wi%4 != 0 {
-			return // quick: every fourth spec of this worker's share
+		if c.Quick() && wi%6 != 0 {
+			return // quick: every sixth spec of this worker's share
 		}
 		for _, st := range walkStarts {
 			for _, sq := range all {
@@ -249,4 +260,88 @@ func C06(c *vh.Ctx) {
 			}
 		}
 	})
+}
+
+// scripts that try to remember something outside their result; under isolation each is deterministic
+var c06Rememberers = []string{
+	`var n = (globalThis.seen || 0) + 1; globalThis.seen = n; return {n: n, who: _.bindings.who};`,
+	`String.prototype.memo = (String.prototype.memo || "") + _.bindings.who; return {memo: "".memo};`,
+	`Array.prototype.count = (Array.prototype.count || 0) + 1; return {n: [].count};`,
+	`JSON.stash = (JSON.stash || 0) + 1; Math.stash = JSON.stash; return {n: JSON.stash};`,
+	`Object.defineProperty(Object.prototype, "tainted", {value: (({}).tainted || 0) + 1, configurable: true, enumerable: false}); return {n: ({}).tainted};`,
+	`var before = _.props.leak || 0; _.props.leak = before + 1; return {before: before};`,
+	`var before = (_.props.cfg && _.props.cfg.leak) || 0; if (_.props.cfg) { _.props.cfg.leak = before + 1; } return {before: before};`,
+	`var before = _.out.calls || 0; _.out.calls = before + 1; _.out({call: before}); return {before: before};`,
+	`var n = (globalThis.seen2 || 0) + 1; globalThis.seen2 = n; if (n == 1) { throw "first attempt fails"; } return {n: n};`,
+	`var old = JSON.stringify; var n = (JSON.wrapped || 0); JSON.stringify = function(x) { return old(x); }; JSON.wrapped = n + 1; return {n: n};`,
+}
+
+// c06Retry: a host may discard a result and retry, or process the same message against many machines,
+// without any effect leaking from one attempt into the next.
+func c06Retry(c *vh.Ctx) {
+	propsList := []core.StepProps{nil, {}, {"cfg": M{"x": 1.0}}}
+	for si, src := range c06Rememberers {
+		for _, asGuard := range []bool{false, true} {
+			var as *rstep.ASpec
+			raw := prog(false, Op{K: "raw", A: src})
+			if asGuard {
+				as = &rstep.ASpec{Nodes: map[string]*rstep.ANode{
+					"n0": {Type: "message", Branches: []rstep.ABranch{{Pattern: M{"a": "?x"}, Guard: raw, Target: "n1"}}},
+					"n1": {Type: "message", Branches: []rstep.ABranch{{Pattern: M{"a": "?y"}, Guard: raw, Target: "n0"}}}}}
+			} else {
+				as = &rstep.ASpec{Nodes: map[string]*rstep.ANode{
+					"n0": {Type: "message", Branches: []rstep.ABranch{{Pattern: M{"a": "?x"}, Target: "n1"}}},
+					"n1": {Action: raw, Branches: []rstep.ABranch{{Target: "n0"}}}}}
+			}
+			spec, err := as.Build()
+			if err != nil {
+				c.Violation("C06/compile-failed", err.Error(), as)
+				continue
+			}
+			for pi, props := range propsList {
+				walk := func(who string) string {
+					st := &core.State{NodeName: "n0", Bs: match.Bindings{"who": who}}
+					var w *core.Walked
+					var err error
+					if p, msg, where := vh.Trap(func() {
+						w, err = spec.Walk(context.Background(), st, []interface{}{M{"a": 1.0}, M{"a": 2.0}}, nil, props)
+					}); p {
+						return "PANIC " + where + " " + msg
+					}
+					key := ""
+					if err != nil {
+						key = "ERR"
+					}
+					if w != nil {
+						for _, s := range w.Strides {
+							key += rstep.Observe(s, nil).Key() + ";"
+						}
+					}
+					return key
+				}
+				c.Eval()
+				c.Nontrivial()
+				first := map[string]string{}
+				for attempt := 0; attempt < 4; attempt++ {
+					for _, who := range []string{"alice", "bob"} {
+						k := walk(who)
+						if attempt == 0 {
+							first[who] = k
+							continue
+						}
+						if k != first[who] {
+							what := "action"
+							if asGuard {
+								what = "guard"
+							}
+							c.Violation(fmt.Sprintf("C06/walk/retry-differs/%s-script-%d", what, si),
+								fmt.Sprintf("walking machine %q over the same spec with equal inputs (props variant %d), attempt %d gave\n%s\nbut the first attempt gave\n%s\nscript: %s", who, pi, attempt+1, k, first[who], src),
+								map[string]interface{}{"script": src, "as_guard": asGuard, "props_variant": pi})
+							break
+						}
+					}
+				}
+			}
+		}
+	}
 }
